@@ -1048,7 +1048,7 @@ static int s_dconvert(ctx_t *c, int a, int b)
 
 static const char *const dfile_tab[] = {
     "c12-a.s2p", "c12-b.ts", "c12-c.npd", "c12-d.s3p", "c12-e.npd",
-    "c12-f.s1p", "c12-g.npd",
+    "c12-f.s1p", "c12-g.npd", "c12-h.s1p",
 };
 
 static int s_dsave(ctx_t *c, int a, int b)
@@ -1936,8 +1936,37 @@ static void data_hists(void)
     }
 }
 
+/* a Touchstone file with numbers of 150 and 400 digits: tokens that
+   outgrow the lexer's buffer twice */
+static int s_dwrite_longtok(ctx_t *c, int a, int b)
+{
+    FILE *fp = fopen(scratch(dfile_tab[b]), "w");
+    (void)c;
+    if (fp == NULL)
+	return 2;
+    fprintf(fp, "! long tokens\n# Hz S RI R 50\n");
+    for (int line = 0; line < 2; ++line) {
+	fprintf(fp, "%d000000000 0.", line + 1);
+	for (int i = 0; i < 150 + a; ++i)
+	    fputc('0' + (i + 5) % 10, fp);
+	fprintf(fp, " -0.");
+	for (int i = 0; i < 400 + a; ++i)
+	    fputc('0' + (i + 2) % 10, fp);
+	fputc('\n', fp);
+    }
+    return fclose(fp) == 0 ? 0 : 2;
+}
+
 static void long_line_hists(void)
 {
+    {
+	hist_t *h = new_hist('D', "vnadata: load of a Touchstone file with "
+		"numbers of 150 and 400 digits");
+	ADD(h, s_dalloc, 0, 0, "vnadata_alloc");
+	ADDN(h, s_dwrite_longtok, 0, 7, "(write file)");
+	ADD(h, s_dload, 0, 7, "vnadata_load");
+	ADD(h, s_dload, 0, 7, "vnadata_load");
+    }
     for (int a = 0; a < 3; ++a) {
 	hist_t *h = new_hist('D', "vnadata: load of an NPD file whose lines "
 		"fill the line buffer to %d byte(s) of its size", a - 1);
